@@ -161,7 +161,7 @@ theorem coverage_after_file_burst_partial (fs0 : FS) (hwf : fs0.WF) (full : Bool
     real current path, and nothing else is -/
 theorem coverage_after_growth_burst_partial (fs0 : FS) (hwf : fs0.WF) (full : Bool) (pre burst : List Op)
     (hv : allValid (Sys.start fs0 true full) pre = true) (hroot : Op.rmdir ["W"] ∉ pre)
-    (hb : allGrow ((Sys.start fs0 true full).run pre).1.fs burst = true) :
+    (hb : allFill ((Sys.start fs0 true full).run pre).1.fs burst = true) :
     Covered (((Sys.start fs0 true full).run pre).1.burst burst).1 ∧
     ∀ w ∈ (((Sys.start fs0 true full).run pre).1.burst burst).1.k.watches,
       ∃ e ∈ (((Sys.start fs0 true full).run pre).1.burst burst).1.fs.ents, e.ino = w.2 ∧ inTreeDir e = true := by
